@@ -20,6 +20,7 @@
 From Coq Require Import List Arith Bool.
 From Oras Require Import Base.Prelude Generated.GC08.
 Import ListNotations.
+Local Open Scope nat_scope.
 
 (* ---------- system 1: saveIndex ---------- *)
 Inductive sstep := SLock | SSnap | SWrite | SUnlock.
@@ -47,8 +48,8 @@ Definition save_prog : list sstep := save_prog_of c08_calls_saveIndex.
 Definition good_save : list sstep := [SLock; SSnap; SWrite; SUnlock].
 
 Section SaveLTS.
-  Variables L D : Type.
-  Variable proj : list nat -> L -> D.
+  Variables L D C : Type.     (* C: the map iteration orders of one save *)
+  Variable proj : C -> L -> D.
 
   Record thread := mkTh {
     t_regs : list (L -> L);                          (* registrations still to do in this operation *)
@@ -61,7 +62,7 @@ Section SaveLTS.
     fun j => if Nat.eqb j i then t else f j.
 
   (* one atomic step of thread i (None: blocked or finished); c = map orders of a write *)
-  Definition th_step (i : nat) (c : list nat) (s : sstate) : option sstate :=
+  Definition th_step (i : nat) (c : C) (s : sstate) : option sstate :=
     let t := ths s i in
     match t_regs t with
     | f :: fs => Some (mkSt (f (live s)) (disk s) (ilock s) (upd (ths s) i (mkTh fs (t_save t) (t_snap t) (t_ops t))))
@@ -89,7 +90,7 @@ Section SaveLTS.
     end.
 
   (* a schedule: which thread moves next (blocked / finished choices are skipped) *)
-  Fixpoint run_sched (sched : list (nat * list nat)) (s : sstate) : sstate :=
+  Fixpoint run_sched (sched : list (nat * C)) (s : sstate) : sstate :=
     match sched with
     | [] => s
     | (i, c) :: r => run_sched r (match th_step i c s with Some s' => s' | None => s end)
